@@ -23,6 +23,10 @@ namespace {
     constexpr char name_long[]  = "A very long device name of 40 characters";
     constexpr char name_empty[] = "";
     constexpr char name_26[]    = "abcdefghijklmnopqrstuvwxyz";
+    // UTF-8 names with 2-, 3- and 4-byte sequences at many positions, long enough to be shortened at every buffer size
+    constexpr char name_utf8a[] = "K\xc3\xbc" "hlschrank Thermometer \xc2\xb0" "C";
+    constexpr char name_utf8b[] = "\xe2\x82\xac" "a" "\xf0\x9f\x98\x80" "\xc3\xa9" "b" "\xe2\x82\xac" "\xf0\x9f\x98\x80" "c" "\xc3\xbc" "\xe2\x82\xac" "\xf0\x9f\x98\x80" "d" "\xc2\xb0";
+    constexpr char name_utf8c[] = "\xf0\x9f\x98\x80" "\xf0\x9f\x98\x80" "\xe2\x82\xac" "\xc3\xa9" "x" "\xf0\x9f\x98\x80" "\xe2\x82\xac" "\xc3\xa9" "\xf0\x9f\x98\x80" "\xe2\x82\xac";
 
     const std::uint8_t custom5[ 5 ]  = { 0x02, 0x01, 0x06, 0x01, 0xff };
     const std::uint8_t custom31[ 31 ] = { 0x02, 0x01, 0x06, 0x1b, 0xff, 1, 2, 3, 4, 5, 6, 7, 8, 9, 10, 11, 12, 13, 14, 15, 16, 17, 18, 19, 20, 21, 22, 23, 24, 25, 26 };
@@ -59,6 +63,10 @@ typedef bluetoe::server< s16< 0x1234 >, s128a, s128b, bluetoe::no_gap_service_fo
 typedef bluetoe::server< s16< 0x1234 >, bluetoe::no_list_of_service_uuids, bluetoe::server_name< name_26 > > S17;
 typedef bluetoe::server< s16< 0x1234 >, bluetoe::no_list_of_service_uuids, bluetoe::appearance::keyboard, bluetoe::advertise_appearance,
     bluetoe::peripheral_connection_interval_range< 0x0010, 0x0020 > > S18;
+
+typedef bluetoe::server< s16< 0x1234 >, bluetoe::no_list_of_service_uuids, bluetoe::server_name< name_utf8a > > S19;
+typedef bluetoe::server< s16< 0x1234 >, bluetoe::no_list_of_service_uuids, bluetoe::server_name< name_utf8b > > S20;
+typedef bluetoe::server< s16< 0x1234 >, bluetoe::server_name< name_utf8c >, bluetoe::appearance::keyboard, bluetoe::advertise_appearance > S21;
 
 struct srv_if
 {
@@ -118,6 +126,9 @@ static std::unique_ptr< srv_if > make( unsigned long long k )
     case 16: return std::unique_ptr< srv_if >( new wrap< S16 > );
     case 17: return std::unique_ptr< srv_if >( new wrap< S17 > );
     case 18: return std::unique_ptr< srv_if >( new wrap< S18 > );
+    case 19: return std::unique_ptr< srv_if >( new wrap< S19 > );
+    case 20: return std::unique_ptr< srv_if >( new wrap< S20 > );
+    case 21: return std::unique_ptr< srv_if >( new wrap< S21 > );
     }
     return std::unique_ptr< srv_if >();
 }
